@@ -53,7 +53,9 @@ SEEDS = {
     "c01-4": ("C01", "between/inside/range/beyond with value and both bounds all strings (cells, quoted terms) whose numeric and textual orders differ", ["C01"]),
     "c02-4": ("C02", "a '+'-list of the shape a+b-c (a range whose left endpoint is the second number collected)", ["C02"]),
     "c03-4": ("C03", "a file whose first physical line is blank: count_lines()/total_lines() one too low on every line", ["C03"]),
+    "c04-4": ("C04", "policy without 'fail', a fail() that fired, and a handled error on the same or a later line (verdict flips back to True)", ["C04"]),
     "c05-4": ("C05", "validation-mode with fail or no-fail and a stop token that disagrees with it, plus a non-raising error", ["C05"]),
+    "c06-4": ("C06", "CsvPath(delimiter=TAB): the reader falls back to ',' (cells, headers and #name/#index all wrong)", ["C06"]),
     "c07-4": ("C07", "fast_forward() on a run that ends without reaching the scan's last line (blank last line, range past the end, empty file, no-run)", ["C07"]),
     "c08-4": ("C08", "breadth-first run, group >= 2, a member that stops early placed before a member that runs longer", ["C08"]),
     "c09-4": ("C09", "a member csvpath printing to two or more printer streams (printouts.txt keeps only the last stream's lines)", ["C09"]),
